@@ -532,11 +532,19 @@ namespace chaiscript::json {
       }
       --offset;
 
+      const auto finite = [](const double t_value) {
+        // "inf"/"nan" cannot be written back as JSON
+        if (!std::isfinite(t_value)) {
+          throw std::runtime_error("JSON ERROR: Number: value out of range");
+        }
+        return t_value;
+      };
+
       if (isDouble) {
-        return JSON((isNegative ? -1 : 1) * chaiscript::parse_num<double>(val) * std::pow(10, exp));
+        return JSON(finite((isNegative ? -1 : 1) * chaiscript::parse_num<double>(val) * std::pow(10, exp)));
       } else {
         if (!exp_str.empty()) {
-          return JSON((isNegative ? -1 : 1) * static_cast<double>(chaiscript::parse_num<std::int64_t>(val)) * std::pow(10, exp));
+          return JSON(finite((isNegative ? -1 : 1) * static_cast<double>(chaiscript::parse_num<std::int64_t>(val)) * std::pow(10, exp)));
         } else {
           return JSON((isNegative ? -1 : 1) * chaiscript::parse_num<std::int64_t>(val));
         }
